@@ -10,7 +10,7 @@ from ..monitors import V
 from ..spaces import kinds_rotating, prog_of, shard_iter
 
 ID = "C11"
-BUDGET = {"quick": 100, "thorough": 600}
+BUDGET = {"quick": 240, "thorough": 600}
 
 
 def topo(name: str, is_async: bool) -> GProg:
